@@ -490,6 +490,12 @@ theorem string_leaf_python_writer (s : Str) (h : validUtf8 s = true) :
     unquoteBytes (pyEncodeString s) = some s :=
   unquote_pyEncode s h
 
+/-- Python → Go: `encoding/json` reads what Python's `json.dumps` writes (a stage's
+`_outs` read by mrp) as the string, for ALL valid UTF-8 strings. -/
+theorem string_leaf_python_to_go (s : Str) (h : validUtf8 s = true) :
+    jsonDecodeString (pyEncodeString s) = some s :=
+  jsonDecode_pyEncode s h
+
 /-- MRO → JSON, (b): `MarshalJSON`/`EncodeJSON` print every string and map key
 with `quoteString`; a JSON reader decodes that text to the string. -/
 theorem string_leaf_mro_to_json (s : Str) (h : validUtf8 s = true) :
